@@ -1,6 +1,7 @@
 package ref
 
 import (
+	"strings"
 	"crypto/sha256"
 	"crypto/sha512"
 	"encoding/base64"
@@ -45,7 +46,13 @@ func MultihashBytes(code uint, digest []byte) []byte {
 func B64(b []byte) string { return base64.RawURLEncoding.EncodeToString(b) }
 
 // UnB64 decodes unpadded base64url strictly.
-func UnB64(s string) ([]byte, error) { return base64.RawURLEncoding.Strict().DecodeString(s) }
+func UnB64(s string) ([]byte, error) {
+	// (Go's decoder, also in strict mode, skips CR and LF: they are not characters of the base64url alphabet - RFC 4648, 3.3)
+	if strings.ContainsAny(s, "\r\n") {
+		return nil, fmt.Errorf("illegal base64url data: line break")
+	}
+	return base64.RawURLEncoding.Strict().DecodeString(s)
+}
 
 // HashBytes returns the encoded multihash of data.
 func HashBytes(code uint, data []byte) string {
@@ -77,6 +84,10 @@ func CommitmentFromReveal(reveal string) (string, error) {
 
 // DecodeMultihash parses an encoded multihash; it insists on exact length.
 func DecodeMultihash(s string) (uint, []byte, error) {
+	// (non-zero trailing bits in the last character are tolerated, as RFC 4648 3.5 permits; characters outside the alphabet are not)
+	if strings.ContainsAny(s, "\r\n") {
+		return 0, nil, fmt.Errorf("illegal base64url data: line break")
+	}
 	b, err := base64.RawURLEncoding.DecodeString(s)
 	if err != nil {
 		return 0, nil, err
